@@ -369,7 +369,7 @@ def sum_scale(kinv, k, d):
 
 # --------------------------------------------------------------------------- case generation
 
-def gen_model(rng, dim=None, geo=None, classes=None):
+def gen_model(rng, dim=None, geo=None, classes=None, geom_mode=None):
     """dim 1-3 (+lat-lon, +time); returns (model spec, field_dim, extent of the domain)"""
     geo = str(geo if geo is not None else rng.choice(["plain", "plain", "plain", "time", "latlon", "latlon_time"]))
     dim = int(dim or rng.integers(1, 4))
@@ -397,10 +397,13 @@ def gen_model(rng, dim=None, geo=None, classes=None):
         cls = str(rng.choice(ok))
         kw["dim"] = dim
         kw["len_scale"] = float(np.round(rng.uniform(1.0, 6.0), 3))
-        if dim > 1 and rng.random() < 0.6:
+        # geom_mode: 0 anisotropy + rotation, 1 rotation only (anis = 1), 2 anisotropy only, 3 neither, None random
+        want_anis = (rng.random() < 0.6) if geom_mode is None else geom_mode in (0, 2)
+        want_rot = (rng.random() < 0.6) if geom_mode is None else geom_mode in (0, 1)
+        if dim > 1 and want_anis:
             kw["anis"] = [float(np.round(rng.uniform(0.3, 1.5), 3)) for _ in range(dim - 1)]
         sdim = dim - (1 if geo == "time" else 0)
-        if sdim > 1 and rng.random() < 0.6:
+        if sdim > 1 and want_rot:
             kw["angles"] = [float(np.round(rng.uniform(-3, 3), 3)) for _ in range(1 if sdim == 2 else 3)]
         fd = dim
         md = dim
@@ -433,9 +436,9 @@ def gen_points(rng, geo, fd, n, grid=False, lon360=False):
 
 
 def gen_spec(rng, variant=None, geo=None, dim=None, n=None, m=None, allow_norm=True, tier="quick", classes=None,
-             exact=None, nugget=None, norm_prob=0.35, mean_nonzero=False):
+             exact=None, nugget=None, norm_prob=0.35, mean_nonzero=False, geom_mode=None):
     variant = variant or str(rng.choice(VARIANTS))
-    ms, fd, geo = gen_model(rng, dim=dim, geo=geo, classes=classes)
+    ms, fd, geo = gen_model(rng, dim=dim, geo=geo, classes=classes, geom_mode=geom_mode)
     if nugget is not None:
         ms["kw"]["nugget"] = float(nugget)
     n = int(n or rng.integers(2, 9 if tier == "quick" else 15))
@@ -983,3 +986,48 @@ def probe_duplicates(ctx, rng, spec, stats):
     if not np.all(np.abs(vd.reshape(-1) - vmr.reshape(-1)) <= tv):
         _viol(ctx, "duplicates", "variance with a duplicated point differs from the merged system (max dev %.3g)" % (
             np.abs(vd.reshape(-1) - vmr.reshape(-1)).max()), s_dup, "dup:variance", dup=vd, merged=vmr)
+
+
+def probe_update_sequence(ctx, rng, spec, stats):
+    """an existing Krige object that is updated the documented way (set_condition with new values, in-place model
+    changes followed by set_condition()) must give what a freshly built object with the final settings gives"""
+    X = np.asarray(spec["cond_pos"], dtype=float)
+    n = X.shape[1]
+    kr = build_krige(spec, Capture("pinv"))
+    val = np.asarray(spec["cond_val"], dtype=float)
+    steps = []
+    # 1. new conditioning values, nothing else passed
+    off = np.round(rng.normal(size=n) * 0.2, 4)
+    v2 = val + off if spec.get("normalizer") is None or spec["variant"] == "Detrended" else val + np.abs(off)
+    kr.set_condition(cond_val=v2)
+    steps.append("set_condition(cond_val=new)")
+    kw = dict(spec["model"]["kw"])
+    # 2. in-place model changes + refresh
+    new_nug = float(np.round(rng.uniform(0.05, 0.9), 3))
+    kr.model.nugget = new_nug
+    kw["nugget"] = new_nug
+    kr.set_condition()
+    steps.append("model.nugget=%g; set_condition()" % new_nug)
+    if rng.random() < 0.7:
+        new_var = float(np.round(kw["var"] * rng.uniform(0.5, 2.0), 3))
+        kr.model.var = new_var
+        kw["var"] = new_var
+        kr.set_condition()
+        steps.append("model.var=%g; set_condition()" % new_var)
+    if rng.random() < 0.5:
+        new_nug = float(np.round(rng.uniform(0.0, 0.5), 3))
+        kr.model.nugget = new_nug
+        kw["nugget"] = new_nug
+        kr.set_condition()
+        steps.append("model.nugget=%g; set_condition()" % new_nug)
+    final = dict(spec, cond_val=[float(x) for x in v2], model=dict(spec["model"], kw=kw))
+    f1, v1 = call_krige(kr, final)
+    fresh = build_krige(final, Capture("pinv"))
+    f2, v2_ = call_krige(fresh, final)
+    ctx.count(None, hist=dict(probe="update_sequence"))
+    if not (C.bit_equal(f1, f2) and C.bit_equal(v1, v2_)):
+        case_spec = dict(final, history=steps, initial=jsonable(spec))
+        _viol(ctx, "update_sequence", "an updated Krige object differs from a fresh object with the same final settings after: %s "
+              "(max field dev %.3g, max variance dev %.3g)" % ("; ".join(steps), float(np.nanmax(np.abs(np.asarray(f1) - np.asarray(f2)))),
+                                                             float(np.nanmax(np.abs(np.asarray(v1) - np.asarray(v2_))))),
+              case_spec, "update_sequence", updated=np.asarray(f1), fresh=np.asarray(f2))
